@@ -1,8 +1,10 @@
 // ---- prelude/nodeio.rs: vocabulary for the page a node occupies ----
 #[verifier::external_body]
 pub struct Bytes<'a> { _p: core::marker::PhantomData<&'a ()> }
-// serialised size of a node's entries (node.rs NodeData::size: element headers plus key / value bytes; an iterator fold, ASSUMED)
-pub uninterp spec fn nd_bytes(d: NodeData) -> nat;
+// the bytes a `Bytes` value denotes (unit bytes proves that size / ordering / equality of Bytes are those of this view)
+pub uninterp spec fn bytes_view(b: Bytes) -> Seq<u8>;
+// serialised size of a node's entries: `nd_bytes`, what NodeData::size is PROVED to return in unit split
+//@include prelude/nd_size_spec.rs
 // a node either has no page (0: new, or already given back) or names a run of tree pages
 spec fn node_page_ok(n: Node) -> bool {
     n.page_id != 0 ==> n.page_id > 1 && n.num_pages > 0 && n.page_id + n.num_pages <= u64::MAX
